@@ -237,7 +237,10 @@ theorem fold_notDecl : ∀ (e : Expr) (g : CEnv) (e' : Expr), GConst g → fold 
   | .while _ _, g, e', hg, h => by
     simp only [fold] at h
     split at h <;> (obtain ⟨_, _, h⟩ := bind_ok h; split at h <;> nd_auto)
-  | .fn .., g, e', hg, h => by simp [fold, unsup] at h
+  | .fn _ _ _, g, e', hg, h => by
+    simp only [fold] at h
+    obtain ⟨⟨_, _⟩, _, h⟩ := bind_ok h
+    nd_finish
   | .modE .., g, e', hg, h => by simp [fold, unsup] at h
   | .whileSet .., g, e', hg, h => by simp [fold, unsup] at h
   | .forE .., g, e', hg, h => by simp [fold, unsup] at h
@@ -778,6 +781,12 @@ theorem foldSeq_ne_nil : ∀ (ss : List Expr) (blk : Bool) (g : CEnv) (ss' : Lis
     case destruct xs e =>
       simp only [foldSeq] at hf
       obtain ⟨e2, _, hf⟩ := bind_ok hf
+      obtain ⟨⟨r2, g2⟩, _, hf⟩ := bind_ok hf
+      simp only [Except.ok.injEq, Prod.mk.injEq] at hf
+      rw [← hf.1]; exact List.cons_ne_nil _ _
+    case fndecl x ps r body =>
+      simp only [foldSeq] at hf
+      obtain ⟨⟨b2, g1⟩, _, hf⟩ := bind_ok hf
       obtain ⟨⟨r2, g2⟩, _, hf⟩ := bind_ok hf
       simp only [Except.ok.injEq, Prod.mk.injEq] at hf
       rw [← hf.1]; exact List.cons_ne_nil _ _
